@@ -197,11 +197,6 @@ namespace Updater
 
 /-! ### C11: what must hold after every grant of an episode -/
 
-def slotNums (v : View) : List Nat :=
-  (match v.ps.next with | some m => [m.number] | none => []) ++
-  (match v.ps.last with | some m => [m.number] | none => []) ++
-  (match v.ps.booting with | some m => [m.number] | none => [])
-
 /-- Numbers rolled back by the responses of the episode's calls (update and checks). -/
 def episodeRolled (sc : UpdateScript) (bops : List Op) : List Nat :=
   (match sc.resp with | some r => r.rolledBack.getD [] | none => []) ++
